@@ -403,20 +403,32 @@ def write_climatology(scratch, rng, three_d, zero_sum=False):
         land[:] = False
     field = np.where(land, np.nan, field)
     field = field * rng.choice([1.0, 1.0, 1.0, 2.0 ** -36, 2.0 ** -44, 2.0 ** 12])  # physical units are arbitrary
+    if not zero_sum and rng.random() < 0.25:
+        # a small signal on a large offset (pressure in Pa, ...): the spread is that of the signal
+        field = field * 2.0 ** -6 + rng.choice([101325.0, 1.0e6, -2.0 ** 22])
     sfield = field * 2.0 + 1.0
     sfield[: max(2, nlat // 2), : max(2, nlon // 2)] = np.nan  # the second variable has no data over this block
     if three_d:
-        data = np.broadcast_to(field, (12, 2, nlat, nlon)).copy()
-        data[:, 1] += 100.0
-        sdata = np.broadcast_to(sfield, (12, 2, nlat, nlon)).copy()
+        # the level used is the first one stored, whichever way the depth coordinate runs
+        depths = rng.choice([[0.0, 10.0], [0.0, 10.0], [20.0, 10.0, 0.0], [-20.0, -10.0, 0.0], [5.0, 50.0, 500.0]])
+        nlev = len(depths)
+        data = np.broadcast_to(field, (12, nlev, nlat, nlon)).copy()
+        for j_ in range(1, nlev):
+            data[:, j_] += 100.0 * j_
+        sdata = np.broadcast_to(sfield, (12, nlev, nlat, nlon)).copy()
         ds = xr.Dataset({"tvar": (("time", "depth", "lat", "lon"), data), "svar": (("time", "depth", "lat", "lon"), sdata)},
-                        coords={"time": times, "depth": [0.0, 10.0], "lat": lat, "lon": lon})
+                        coords={"time": times, "depth": depths, "lat": lat, "lon": lon})
     else:
         data = np.broadcast_to(field, (12, nlat, nlon)).copy()
         sdata = np.broadcast_to(sfield, (12, nlat, nlon)).copy()
         ds = xr.Dataset({"tvar": (("time", "lat", "lon"), data), "svar": (("time", "lat", "lon"), sdata)},
                         coords={"time": times, "lat": lat, "lon": lon})
     return ds, field, lat, lon, year
+
+
+def atol_for(field):
+    mag = max(1e-300, float(np.nanmax(np.abs(field)))) if np.isfinite(field).any() else 1.0
+    return 1e-9 * min(1.0, mag)
 
 
 def part_creator(ctx) -> None:
@@ -552,11 +564,31 @@ def part_creator(ctx) -> None:
                 empty_box = [float(lon[0]) + 0.2, float(lat[0]) + 0.2, float(lon[0]) + 0.4, float(lat[0]) + 0.4]
                 shared = list(empty_box)
                 v2 = dict(vcfg, bbox=shared)
+                v2["tests"] = {"gross_range_test": {"suspect_min": "min", "suspect_max": "max", "fail_min": "min - 1", "fail_max": "max + 1"}}
+                out2 = None
                 try:
-                    creator.create_config(QcVariableConfig(v2))
+                    out2 = creator.create_config(QcVariableConfig(v2))
                 except Exception:  # noqa: BLE001
                     pass
                 ctx.count("c20.create_config_widened_box_runs")
+                if out2 is not None:
+                    # documented fallback: the box is widened in half-degree steps until it holds data; the spans are then
+                    # those of SOME widened box (which one exactly is the library's business), never those of "no data"
+                    g2 = out2.get("temp", {}).get("qartod", {}).get("gross_range_test", {})
+                    ss2 = g2.get("suspect_span", [None, None])
+                    matches = False
+                    for k_ in range(1, 25):
+                        bx = [empty_box[0] - 0.5 * k_, empty_box[1] - 0.5 * k_, empty_box[2] + 0.5 * k_, empty_box[3] + 0.5 * k_]
+                        cb = field[(lat >= bx[1]) & (lat <= bx[3])][:, (lon >= bx[0]) & (lon <= bx[2])]
+                        cb = cb[np.isfinite(cb)]
+                        if cb.size and ss2[0] is not None and math.isclose(ss2[0], float(cb.min()), rel_tol=1e-9, abs_tol=atol_for(field)) \
+                                and math.isclose(ss2[1], float(cb.max()), rel_tol=1e-9, abs_tol=atol_for(field)):
+                            matches = True
+                            break
+                    ctx.count("c20.create_config_widened_box_spans_judged")
+                    if not matches:
+                        ctx.violation("C20:create_config:widened-box-spans-match-no-widened-box",
+                                      {**wb, "requested_box(no grid node inside)": empty_box, "observed_suspect_span": ss2})
                 if shared != empty_box:
                     ctx.violation("C20:create_config:caller-bbox-modified",
                                   {**wb, "bbox_before": empty_box, "bbox_after": shared})
